@@ -290,6 +290,7 @@ def campaign(mod, tier, seed, workers=None, max_runs=None, time_cap=None, out=sy
         try:
             tasks = ((seed, tier, i, i in sample_idx) for i in range(nruns))
             stopped_early = False
+            contig = 0   # length of the contiguous prefix of completed run indices
             for rec in pool.imap_unordered(_worker_run, tasks, chunksize=4):
                 if "harness_error" in rec:
                     harness_errors.append(rec)
@@ -298,7 +299,9 @@ def campaign(mod, tier, seed, workers=None, max_runs=None, time_cap=None, out=sy
                 # the wall-clock cap is a safety net only: it does not include the build, and it never
                 # cuts a batch below a minimum number of runs (a slow machine must not turn into a
                 # vacuous "clean" verdict)
-                if time.time() - t_search > cap and len(recs) >= min(nruns, budget.get("min_runs", 300)):
+                while contig in recs:
+                    contig += 1
+                if time.time() - t_search > cap and contig >= min(nruns, budget.get("min_runs", 300)):
                     stopped_early = True
                     break
             pool.terminate()
